@@ -484,3 +484,95 @@ def install_nfvs(reg):
         lemmas=[("L5.full_space_percolates_to_empty_network", lambda c: z3.Implies(
             T.card(c.self.space[c.node_id]) == T.nvars(bn_net_of(c.self.net)), T.PercNetObj(c.self.net, c.self.space[c.node_id]) == T.EmptyBN))],
         note="cache discipline and choice of the FVS variant; the FVS computation itself is AEON's (assumed)"), method_of="SD")
+
+
+# ====================================================================== compute_attractor_candidates: the avoid list (second contract `#avoid_list`)
+def install_avoid_list(reg):
+    """What the main contract of compute_attractor_candidates keeps as a pinned fragment (lines 121-162) is verified here: the list of spaces the
+    candidate search avoids is the reduced first motif of every successor (in the order node_successors lists them) followed - for a skip node -
+    by the reduced common subspace with every non-ancestor node whose cached candidates or seeds are the EMPTY list, in node-id order (the rule
+    as written; its soundness is the known finding D12 and is not claimed). Everything after the avoid list is skipped in THIS contract (it is
+    verified in the main one)."""
+    main = reg.contracts["biobalm._sd_attractors.attractor_candidates.compute_attractor_candidates"]
+    k_ = z3.Int("k!al")
+    SpArr = z3.ArraySort(I, T.SpaceS)
+    OArr = M.TArr(M.OptLS).sort()
+    FoldM = z3.Function("al_skip_exclusions", SpArr, OArr, OArr, T.SpaceS, LS.sort(), I, LS.sort())   # (spaces, cand, seeds, node space, base, k)
+    sp_, ca_, se_, ns_, b_, n_ = (z3.Const("sp!al", SpArr), z3.Const("ca!al", OArr), z3.Const("se!al", OArr), z3.Const("ns!al", T.SpaceS),
+                                   z3.Const("b!al", LS.sort()), z3.Int("n!al"))
+
+    def append(l, x):
+        return LS.mk(LS.len(l) + 1, z3.Store(LS.at(l), LS.len(l), x))
+
+    def rule(ns, sp, ca, se, m):
+        is_empty = lambda o: z3.And(z3.Not(M.OptLS.is_none(o)), LS.len(M.OptLS.val(o)) == 0)
+        return z3.And(z3.Not(T.subspace(ns, sp[m])), z3.Or(is_empty(ca[m]), is_empty(se[m])),
+                      z3.Not(z3.Exists([kn], z3.And(ns[kn] >= 0, sp[m][kn] >= 0, ns[kn] != sp[m][kn]))))
+
+    AX = [
+        z3.ForAll([sp_, ca_, se_, ns_, b_], FoldM(sp_, ca_, se_, ns_, b_, 0) == b_, patterns=[FoldM(sp_, ca_, se_, ns_, b_, 0)]),
+        z3.ForAll([sp_, ca_, se_, ns_, b_, n_], z3.Implies(n_ >= 0, FoldM(sp_, ca_, se_, ns_, b_, n_ + 1) == z3.If(
+            rule(ns_, sp_, ca_, se_, n_),
+            append(FoldM(sp_, ca_, se_, ns_, b_, n_), reduce_space(T.union(ns_, sp_[n_]), ns_)),
+            FoldM(sp_, ca_, se_, ns_, b_, n_))), patterns=[FoldM(sp_, ca_, se_, ns_, b_, n_ + 1)]),
+    ]
+
+    def O(c):
+        return c.old.sd if c.old is not None else c.sd
+
+    def frame(c):
+        return z3.And(structure_unchanged(c.sd, c.old.sd), S.inv_all(c.sd))
+
+    def fold(c, base, k):
+        o = O(c)
+        return FoldM(o.space, o.cand, o.seeds, o.space[c.node_id], base, k)
+
+    def children_part(c):
+        """[edge_stable_motif(node, s, reduced=True) for s in children] as a term (the comprehension's own value)"""
+        o, n = O(c), c.node_id
+        ch = c.local("children")
+        i = z3.Int("ci!")
+        return LS.mk(LI.len(ch), z3.Lambda([i], reduce_space(o.motif0[n][LI.at(ch)[i]], o.space[n])))
+
+    def post(c):
+        o, n = O(c), c.node_id
+        if not c.has_local("child_motifs_reduced"):
+            return T.card(o.space[n]) == T.nvars(N(o))        # the early return for a node that fixes every variable: no avoid list is built
+        A = c.local("child_motifs_reduced")
+        try:
+            base = children_part(c)
+            cl = [o.expanded[n]]
+        except (KeyError, AttributeError):
+            base = LS.empty().t
+            cl = [z3.Not(o.expanded[n])]
+        if c.passed_loop(0):
+            cl += [o.skipped[n], A == fold(c, base, o.K)]
+        else:
+            cl += [z3.Not(o.skipped[n]), A == base]
+        cl.append(c.local("node_is_pseudo_minimal") == (LS.len(A) == 0))
+        return z3.And(cl)
+
+    def inv0(c):
+        base = c.entry_local(0, "child_motifs_reduced")
+        return [("exclusions_of_the_visited_nodes_by_the_rule_as_written", c.child_motifs_reduced == fold(c, base, c.i)),
+                ("index", c.i >= 0), ("node_space", c.node_space == O(c).space[c.node_id]), ("frame", frame(c))]
+
+    def lem_ext(c):
+        """array extensionality for the appended space (hint only)"""
+        rq, kq = z3.Const("r!alx", T.SpaceS), z3.Const("k!alx", Name)
+        o = O(c)
+        u = reduce_space(T.union(o.space[c.node_id], o.space[c.i]), o.space[c.node_id])
+        return z3.ForAll([rq], z3.Or(rq == u, z3.Exists([kq], rq[kq] != u[kq])), patterns=[append(c.child_motifs_reduced, rq)])
+
+    reg.add(Contract(
+        "biobalm._sd_attractors.attractor_candidates.compute_attractor_candidates#avoid_list",
+        params=main.params, properties=("C05", "C08"),
+        requires=list(main.requires) + [lambda c: c.sd.cfg_max_motifs_per_node >= 0], modifies={"sd": CACHEF},
+        may_raise={"RuntimeError": {"modifies": {"sd": CACHEF}}}, raises={"RuntimeError": []},
+        ensures=[("avoid_list_is_children_motifs_then_skip_exclusions_by_the_rule_as_written", post), ("frame", frame)],
+        axioms=AX,
+        local_types={"child_motifs_reduced": LS, "children": LI, "node_space": TSpace, "reduced_subspace": TSpace, "total_skip_nodes_applied": TInt},
+        loops={0: LoopContract("for n in sd.node_ids()", inv0)},
+        trusted_fragments=[{"name": "everything after the avoid list (verified in the main contract of the function)",
+                            "first": "if len(node_nfvs) == 0:", "last": "return candidate_states", "sha256": None, "assigns": {}, "ensures": lambda c: []}],
+        note="pins WHICH spaces are avoided; that avoiding them loses no attractor is the main contract (children) and the known finding D12 (skip exclusions)"))
